@@ -155,7 +155,7 @@ class Engine:
         s.gaddr = {}; s.faddr = {}; s.addr2f = {}
         s.events = []; s.asserts = []; s.assumes = []; s.exceeded = []; s.stuck = []; s.futex_waits = []
         s.may_written = set(); s.wild = False; s.D = {}; s.read_of_var = {}; s.oblig = []
-        s.wtids = {}; s.wt_new = False; s.env = []; s.time_vars = {}
+        s.wtids = {}; s.wt_new = False; s.env = []; s.time_vars = {}; s.rtids = {}
         s.nfresh = 0
         s.local_solver = z3.Solver(); s.local_solver.set('timeout', 2000)
         s.stats = dict(paths=0, forks=0, instrs=0)
@@ -737,9 +737,13 @@ class Engine:
         cands = s.enum_values(addr, p.pc, limit=256, record=False)
         if not cands: return None
         v = None
+        oob = s.opts.get('oob') == '1'
         for a in cands:
+            if oob and HEAP_BASE <= a < STACK_BASE and not s.in_alloc(a, size):
+                s.asserts.append((list(p.pc) + [tobv(addr, 64) == a], z3.BoolVal(False), 'OOB load of %d bytes at %#x' % (size, a), s.tid)); continue
             x = p.mem.load(a, size, undef=lambda q: 0)
             v = x if v is None else s.ite_b(tobv(addr, 64) == a, x, v, 8 * size)
+        if v is None: return 0
         return v
 
     def seq_store(s, p, addr, size, val):
@@ -755,6 +759,9 @@ class Engine:
         if s.phase == 'seq' and not s.is_private(p, addr):
             if not is_c(addr): raise Unsupported('symbolic address in pre-run')
             return s.seq_mem.load(addr, size, undef=lambda a: 0), None
+        if getattr(s, 'sequential', False) and s.phase == 'threads' and s.opts.get('oob') == '1' and is_c(addr) and HEAP_BASE <= addr < STACK_BASE and not s.in_alloc(addr, size):
+            # memory-safety obligation: a load outside every live allocation (e.g. past the end of the parser's input)
+            s.asserts.append((list(p.pc), z3.BoolVal(False), 'OOB load of %d bytes at %#x: %s' % (size, addr, text[:40]), s.tid))
         if s.is_private(p, addr):
             return p.mem.load(addr, size, undef=(lambda a: 0) if getattr(s, 'sequential', False) else (lambda a: s.fresh('undef', 8))), None
         if getattr(s, 'sequential', False) and s.phase == 'threads':
@@ -788,6 +795,13 @@ class Engine:
         if inpriv is not None: p.pc.append(z3.Not(inpriv))
         e = s.new_event(p, 'R', addr, size, v, order, text)
         if inpriv is not None: p.pc.pop()
+        if s.phase == 'threads':
+            rt = s.tid if is_c(addr) else -2
+            for a0 in ([addr] if is_c(addr) else shared):
+                for i in range(size):
+                    rs = s.rtids.get(a0 + i)
+                    if rs is None: s.rtids[a0 + i] = {rt}; s.wt_new = True
+                    elif rt not in rs: rs.add(rt); s.wt_new = True
         s.read_of_var[str(v)] = e
         if not is_c(addr):
             e.aset = set(a for a in shared if s.in_alloc(a, size))
@@ -817,7 +831,14 @@ class Engine:
         if getattr(s, 'sequential', False) and s.phase == 'threads':
             s.seq_store(p, addr, size, val); return None
         if s.phase == 'threads':
-            if is_c(addr): p.mem.store(addr, size, val)
+            if is_c(addr):
+                p.mem.store(addr, size, val)
+                if not s.is_final and order == 'na' and s.opts.get('confine', '1') == '1' and \
+                   all(s.wtids.get(addr + i, set()) <= {s.tid} and s.rtids.get(addr + i, set()) <= {s.tid} for i in range(size)):
+                    # thread-confined location (nobody else reads or writes it, as far as the exploration rounds have
+                    # found; a later discovery triggers another round): the store needs no event
+                    s.note_write(p, addr, size, val)
+                    return None
             elif s.is_final:
                 # the epilogue runs alone: read the old contents of every candidate once, then keep everything path-local
                 for a in [x for x in s.enum_values(addr, p.pc) if x < STACK_BASE and s.in_alloc(x, size)]:
@@ -1390,7 +1411,15 @@ class Engine:
                 lens = s.enum_values(ln, p.pc, limit=16)
                 if not lens: return 'end'
                 mx = max(lens)
-                if any(l % 8 for l in lens): raise Unsupported('symbolic memcpy length not multiple of 8')
+                if any(l % 8 for l in lens):
+                    if mx > 64: raise Unsupported('symbolic memcpy length (not multiple of 8, > 64)')
+                    tmpb = []
+                    for off in range(mx):
+                        v, _ = s.shared_load(p, s.add64(src, off), 1, 'na', ins.text); tmpb.append(v)
+                    for off in range(mx):
+                        old, _ = s.shared_load(p, s.add64(dst, off), 1, 'na', ins.text)
+                        s.shared_store(p, s.add64(dst, off), 1, s.ite_b(z3.UGT(tobv(ln, 64), off), tmpb[off], old, 8), 'na', ins.text)
+                    return 0
                 for off in range(0, mx, 8):
                     v, _ = s.shared_load(p, s.add64(src, off), 8, 'na', ins.text)
                     old, _ = s.shared_load(p, s.add64(dst, off), 8, 'na', ins.text)
